@@ -26,8 +26,8 @@ RECURSIVE PatB(_, _, _, _)
 PatB(E, d, base, p) == IF d > Len(E) THEN (IF p = 1 THEN base + 1 ELSE ((base * 7) % 6) - 2)
                        ELSE [j \in 1..NB(E[d]) |-> PatB(E, d + 1, base + (j - 1) * NCellsFrom(E, d + 1), p)]
 H(E, p) == [edges |-> E, bins |-> PatB(E, 1, 0, p)]
-Meshes1 == {<<<<0, 2>>>>, <<<<0, 2, 6>>>>, <<<<-4, 0, 2, 12>>>>}
-Meshes2 == {<<<<0, 2, 6>>, <<2, 4, 8>>>>, <<<<0, 2, 6, 8>>, <<-2, 4, 8>>>>, <<<<0, 4>>, <<0, 2, 4, 10>>>>}
+Meshes1 == {<<<<0, 2>>>>, <<<<0, 2, 6>>>>, <<<<-4, 0, 2, 12>>>>, <<<<0, 2, 4, 6, 8, 20>>>>}
+Meshes2 == {<<<<0, 2, 6>>, <<2, 4, 8>>>>, <<<<0, 2, 6, 8>>, <<-2, 4, 8>>>>, <<<<0, 4>>, <<0, 2, 4, 10>>>>, <<<<0, 2, 4, 10>>, <<6, 8>>>>}
 Meshes3 == {<<<<0, 2, 6>>, <<2, 4, 8>>, <<0, 10, 12>>>>, <<<<0, 2, 6>>, <<2, 4>>, <<0, 4, 6, 8>>>>}
 ConvQuick == {H(E, p) : E \in Meshes1 \cup Meshes2 \cup Meshes3, p \in {1, 2}}
 ConvThorough == ConvQuick \cup {H(E, p) : E \in {<<<<0, 2, 4, 6>>, <<0, 2, 4, 6>>>>, <<<<0, 2, 4, 6>>, <<0, 2, 4>>, <<0, 2, 4, 6>>>>,
